@@ -11,7 +11,16 @@ vars == <<mode, x, it, outs>>
 Raw(n) == [j \in 1..n |-> W("c" \o ToString(j - 1))]
 
 \* quick: U1 + derived shapes; thorough adds the depth-2 universe
-TermCases == U1 \cup AtomsU0 \cup ImgWithLatePH \cup (IF TIER = "thorough" THEN U2rSet(0) ELSE {RepOf(kd) : kd \in CompoundKinds \cup StatementKinds})
+\* unordered compounds whose elements feed the same hash input (same name under several atom kinds, a term and its negation,
+\* the same components under two constructors) and images longer than the exhaustive universe reaches
+Colliding == {[k |-> kd, s |-> S] : kd \in {"SetExtension", "Conjunction", "IntersectionIntension"},
+              S \in {{W("go"), OP("go")}, {IV("x"), DV("x"), QV("x")}, {W("a"), [k |-> "Negation", a |-> W("a")]},
+                     {[k |-> "Product", q |-> <<W("a"), W("b")>>], [k |-> "ConjunctionSequential", q |-> <<W("a"), W("b")>>]},
+                     {W("a"), SE1(W("a")), SI1(W("a"))}}}
+LongImages == {[k |-> kd, i |-> i, q |-> q] : kd \in ImgKinds, i \in 0..5,
+               q \in {<<W("a"), W("b"), W("c")>>, <<W("a"), W("b"), W("c"), IV("x")>>, <<W("a"), W("b"), W("c"), IV("x"), W("e")>>}}
+              \cap {v \in [k : ImgKinds, i : 0..5, q : {<<W("a"), W("b"), W("c")>>, <<W("a"), W("b"), W("c"), IV("x")>>, <<W("a"), W("b"), W("c"), IV("x"), W("e")>>}] : v.i <= Len(v.q)}
+TermCases == U1 \cup AtomsU0 \cup ImgWithLatePH \cup Colliding \cup LongImages \cup (IF TIER = "thorough" THEN U2rSet(0) ELSE {RepOf(kd) : kd \in CompoundKinds \cup StatementKinds})
 
 Init == \/ /\ mode = "iter" /\ \E n \in 0..MAXN : \E i \in 0..(n + 2) : x = [n |-> n, i |-> i] /\ it = IterInit(Raw(n), i)
            /\ outs = <<>>
